@@ -8,6 +8,8 @@
     pat.parse <type> <patternHex> <culture> <textHex>       → ok fields… | fail | !dom | !<err>
     pat.delim <type> <patternHex> <culture> → 1 | 0 (the theorem's `Delimited` criterion on the compiled steps) | - (not stepped)
     pat.wf <type> <patternHex> <culture> → 1 | 0 (`dtStepWF` on all steps and `fieldsSound`) | - (not stepped)
+    cu.names <culture> → <9 bits: monthNamesOK 3g 3p 4g 4p, dayNamesOK 3 4, amPmOK 1 2, eraOK> <hex of the U+001F-joined
+       danger character lists: months 3g 3p 4g 4p, days 3 4, am/pm, era>   (`NamesOK` conditions of the text-step theorems)
     cu.check <culture> → <offsetTextsCustom> <dtTextsNoL> <monthHeadsEmpty>   (culture hypotheses of the theorems)
     pat.calids → hex of the U+001F-joined calendar ids
        type: time | date | offset | datetime | datetime:<y>,<m>,<d>,<nod> (template value)
@@ -54,7 +56,8 @@ def decodeCulture (s : String) : Option Culture :=
            fullDateTime := g 87, eraPrimaryBCE := g 88, eraPrimaryCE := g 89, eraNamesBCE := names 90, eraNamesCE := names 91 }
   else none
 
-/-- `time` | `date` | `offset` | `datetime` (default template) | `datetime:<y>,<m>,<d>,<nod>` -/
+/-- `time` | `date` | `offset` | `datetime` (default template) | `datetime:<y>,<m>,<d>,<nod>` | `annual` |
+    `annual:<m>,<d>` | `duration` -/
 def decodeType (s : String) : Option PType :=
   if s = "time" then some .time else if s = "date" then some .date else if s = "offset" then some .offset
   else if s = "datetime" then some (.datetime Tmpl.default)
@@ -62,6 +65,12 @@ def decodeType (s : String) : Option PType :=
     match ((String.ofList (s.toList.drop 9)).splitOn ",").mapM String.toInt? with
     | some [y, m, d, nod] => some (.datetime ⟨y, m, d, nod⟩)
     | _ => none
+  else if s = "annual" then some (.annual 1 1)
+  else if s.startsWith "annual:" then
+    match ((String.ofList (s.toList.drop 7)).splitOn ",").mapM String.toInt? with
+    | some [m, d] => some (.annual m d)
+    | _ => none
+  else if s = "duration" then some .duration
   else none
 
 /-- the type a created pattern object parses with (LocalDateTime standard patterns keep the default template) -/
@@ -154,7 +163,7 @@ def handlePat (toks : List String) : Option String :=
       let ty ← decodeType ty; let p ← decodeText' p; let cu ← decodeCulture cu
       some (match compile ty cu p with
         | .error e => "!" ++ e.name
-        | .ok (.stepped c) => if Delimited true c.steps then "1" else "0"
+        | .ok (.stepped c) => if Delimited c.cu c.used true c.steps then "1" else "0"
         | .ok _ => "-")
   | ["pat.wf", ty, p, cu] => do
       let ty ← decodeType ty; let p ← decodeText' p; let cu ← decodeCulture cu
@@ -165,6 +174,14 @@ def handlePat (toks : List String) : Option String :=
   | ["cu.check", cu] => do
       let cu ← decodeCulture cu
       some s!"{showBool cu.offsetTextsCustom} {showBool cu.dtTextsNoL} {showBool cu.monthHeadsEmpty}"
+  | ["cu.names", cu] => do
+      let cu ← decodeCulture cu
+      let bits := [monthNamesOK cu 3 true, monthNamesOK cu 3 false, monthNamesOK cu 4 true, monthNamesOK cu 4 false,
+        dayNamesOK cu 3, dayNamesOK cu 4, amPmOK cu 1, amPmOK cu 2, eraOK cu]
+      let dangers := [monthDanger cu 3 true, monthDanger cu 3 false, monthDanger cu 4 true, monthDanger cu 4 false,
+        dayDanger cu 3, dayDanger cu 4, amPmDanger cu 1, eraDanger cu]
+      some (String.ofList (bits.map (fun b => if b then '1' else '0')) ++ " " ++
+        encodeText' (List.intercalate [Char.ofNat 31] dangers))
   | ["pat.calids"] => some (encodeText' (List.intercalate [Char.ofNat 31] calendarIds))
   | _ => none
 
